@@ -7,6 +7,10 @@ HOOK_COMMITS = ["189fd6a"]
 
 # id -> (technique, level text, level note, design ref)
 CLAIMED = {
+ "C17": ("Lean 4 totality and round-trip proofs over the byte-level transcription of dsn.ParseSimple/FormatSimple/tagToField + correspondence incl. invalid UTF-8; URI form by oracle on the real code",
+         "Proof (simple form): for all struct shapes, states and byte strings parseSimple never panics (every Go index/slice is an explicit bounds check in the model); parse(format(m)) = m for all string values free of quotes, backslashes, control bytes that %q leaves unchanged, all bools, all int64; a later key or alias overrides an earlier one; a key matching no field (including the empty key) is rejected. The URI form (net/url) is not modelled: it is covered by the property oracle on the real FormatURI/ParseURI only (stated as partial). Four panics, the KEY-substring defect and the empty-key alias were found and repaired.",
+         "Trusted: Lean kernel; %q of non-ASCII runes, strconv.ParseBool/ParseInt, sort.Strings, reflection (embedded structs flattened, json names distinct), net/url for the URI leg; model tied to the code by the harness. Known finding: non-printable non-control runes do not round-trip in the simple form.",
+         "DESIGN.md §7 C17"),
  "C16": ("Lean 4 digit-list arithmetic proofs over the transcribed Decimal.String/SetString/sanity + correspondence with asetypes.Decimal and a math/big.Rat oracle",
          "Proof: for every precision, every scale 0..precision and every integer with at most precision digits, SetString(String(d)) gives back the value; the text has the exact shape sign/integer digits without leading zeros/point/fraction without trailing zeros and denotes exactly i/10^scale; a numeral parses to exactly its value x 10^scale iff it is representable (digits beyond the scale all zero, at most precision digits), everything else (second point, garbage, non-zero digit beyond the scale, too many digits) is an error; exactly the pairs 0 <= scale <= precision <= 38 pass construction. The defects found (silent value change, negative scale) were repaired (fix commits 39e6d79, 5e05441).",
          "Trusted: Lean kernel; hand-restated Go stdlib behaviour (strings.TrimSpace/Split/Trim*, big.Int.SetString(_,10) syntax, %0Ns padding of big.Int text) tied to the real code only by the correspondence harness; text must be valid UTF-8.",
